@@ -435,4 +435,140 @@ end
 theorem V.cmp_rank (a b : V) (h : a.cls.rank < b.cls.rank) : V.cmp a b = .lt := V.cmp_of_rank_lt h
 
 
+/-! ### Transitivity and congruence (int64 payloads in range) -/
+
+mutual
+/-- Every int64 payload inside the value is in the int64 range (implied by `V.wf`). This is the
+    only well-formedness the order laws need: for out-of-range "int64" payloads the range checks
+    of `compareInt64ToFloat64` are wrong (e.g. `i64 2^64` vs the double `2^63`). -/
+def V.i64Ok : V → Bool
+  | .i64 n => inI64 n
+  | .doc fs => i64OkFields fs
+  | .arr xs => i64OkList xs
+  | _ => true
+def i64OkFields : List (String × V) → Bool
+  | [] => true
+  | (_, v) :: r => v.i64Ok && i64OkFields r
+def i64OkList : List V → Bool
+  | [] => true
+  | v :: r => v.i64Ok && i64OkList r
+end
+
+theorem V.i64Top_of_i64Ok {a : V} (h : a.i64Ok = true) : a.i64Top = true := by
+  cases a <;> first | rfl | (simpa [V.i64Ok, V.i64Top] using h)
+
+mutual
+theorem V.i64Ok_of_wf : ∀ a : V, a.wf = true → a.i64Ok = true
+  | .doc fs, h => by rw [V.wf] at h; rw [V.i64Ok]; exact i64OkFields_of_wf fs h
+  | .arr xs, h => by rw [V.wf] at h; rw [V.i64Ok]; exact i64OkList_of_wf xs h
+  | .i64 n, h => by rw [V.wf] at h; rw [V.i64Ok]; exact h
+  | .null, _ | .missing, _ | .i32 _, _ | .f64 _, _ | .dec _ _, _ | .str _, _
+  | .bin _ _, _ | .oid _, _ | .bool _, _ | .date _, _ | .ts _ _, _ | .regex _ _, _ => by
+      simp [V.i64Ok]
+theorem i64OkFields_of_wf : ∀ fs : List (String × V), wfFields fs = true → i64OkFields fs = true
+  | [], _ => by rw [i64OkFields]
+  | (_, v) :: r, h => by
+      rw [wfFields, Bool.and_eq_true] at h
+      rw [i64OkFields, Bool.and_eq_true]
+      exact ⟨V.i64Ok_of_wf v h.1, i64OkFields_of_wf r h.2⟩
+theorem i64OkList_of_wf : ∀ xs : List V, wfList xs = true → i64OkList xs = true
+  | [], _ => by rw [i64OkList]
+  | v :: r, h => by
+      rw [wfList, Bool.and_eq_true] at h
+      rw [i64OkList, Bool.and_eq_true]
+      exact ⟨V.i64Ok_of_wf v h.1, i64OkList_of_wf r h.2⟩
+end
+
+/-- On numbers with in-range int64 payloads `V.cmp` is the exact order of the values. -/
+theorem V.cmp_num_exact' {a b : V} (ha : a.cls = .number) (hb : b.cls = .number)
+    (oa : a.i64Ok = true) (ob : b.i64Ok = true) :
+    V.cmp a b = XR.cmp a.numVal b.numVal := by
+  rw [V.cmp_number ha hb,
+    compareNumbers_exact a b ha hb (V.i64Top_of_i64Ok oa) (V.i64Top_of_i64Ok ob)]
+
+theorem V.cmp_at_flat (a b d : V) (hdoc : a.isDoc = false) (harr : a.isArr = false)
+    (oa : a.i64Ok = true) (ob : b.i64Ok = true) (od : d.i64Ok = true) : LawsAt V.cmp a b d := by
+  apply LawsAt.of_rank (fun v => v.cls.rank) V.cmp (fun _ _ => V.cmp_of_rank_lt)
+    (fun _ _ => V.cmp_of_rank_gt) a b d (V.cmp_refl a) (fun _ => V.cmp_swap a b)
+  intro h1 h2
+  by_cases hn : a.cls = .number
+  · have hb : b.cls = .number := Class.rank_inj (by rw [← h1, hn])
+    have hd : d.cls = .number := Class.rank_inj (by rw [← h2, hb])
+    show Laws _ _ _ _ _
+    rw [V.cmp_num_exact' hn hn oa oa, V.cmp_num_exact' hn hb oa ob, V.cmp_num_exact' hb hn ob oa,
+      V.cmp_num_exact' hb hd ob od, V.cmp_num_exact' hn hd oa od]
+    exact (XR.cmp_lawful.compareOn V.numVal).at a b d
+  by_cases h0 : a.cls = .null
+  · have hb : b.cls = .null := Class.rank_inj (by rw [← h1, h0])
+    have hd : d.cls = .null := Class.rank_inj (by rw [← h2, hb])
+    show Laws _ _ _ _ _
+    rw [V.cmp_null h0 h0, V.cmp_null h0 hb, V.cmp_null hb h0, V.cmp_null hb hd, V.cmp_null h0 hd]
+    constructor <;> intros <;> first | rfl | contradiction
+  cases a <;> simp [V.cls, V.isDoc, V.isArr] at hn h0 hdoc harr <;>
+    cases b <;> simp [V.cls, Class.rank] at h1 <;>
+    cases d <;> simp [V.cls, Class.rank] at h2 <;>
+    show Laws _ _ _ _ _
+  · simp only [V.cmp_str]; exact cmpStr_lawful.at _ _ _
+  · simp only [V.cmp_bin]; exact binCmp_lawful.at _ _ _
+  · simp only [V.cmp_oid]; exact cmpBytes_lawful.at _ _ _
+  · simp only [V.cmp_bool]; exact cmpBool_lawful.at _ _ _
+  · simp only [V.cmp_date]; exact intCmp_lawful.at _ _ _
+  · simp only [V.cmp_ts]; exact tsCmp_lawful.at _ _ _
+  · simp only [V.cmp_regex]; exact regexCmp_lawful.at _ _ _
+
+mutual
+/-- The comparator laws of `V.cmp` at every triple of values with in-range int64 payloads. -/
+theorem V.cmp_at : ∀ a b d : V, a.i64Ok = true → b.i64Ok = true → d.i64Ok = true →
+    LawsAt V.cmp a b d
+  | .doc fs, b, d, oa, ob, od =>
+      LawsAt.of_rank (fun v => v.cls.rank) V.cmp (fun _ _ => V.cmp_of_rank_lt)
+        (fun _ _ => V.cmp_of_rank_gt) _ b d (V.cmp_refl _) (fun _ => V.cmp_swap _ b)
+        fun h1 h2 => by
+          obtain ⟨gs, rfl⟩ := V.eq_doc_of_rank h1
+          obtain ⟨hs, rfl⟩ := V.eq_doc_of_rank h2
+          rw [V.i64Ok] at oa ob od
+          show Laws _ _ _ _ _
+          simp only [V.cmp_doc]
+          exact cmpFields_at fs gs hs oa ob od
+  | .arr xs, b, d, oa, ob, od =>
+      LawsAt.of_rank (fun v => v.cls.rank) V.cmp (fun _ _ => V.cmp_of_rank_lt)
+        (fun _ _ => V.cmp_of_rank_gt) _ b d (V.cmp_refl _) (fun _ => V.cmp_swap _ b)
+        fun h1 h2 => by
+          obtain ⟨ys, rfl⟩ := V.eq_arr_of_rank h1
+          obtain ⟨zs, rfl⟩ := V.eq_arr_of_rank h2
+          rw [V.i64Ok] at oa ob od
+          show Laws _ _ _ _ _
+          simp only [V.cmp_arr]
+          exact cmpList_at xs ys zs oa ob od
+  | .null, b, d, oa, ob, od | .missing, b, d, oa, ob, od | .i32 _, b, d, oa, ob, od
+  | .i64 _, b, d, oa, ob, od | .f64 _, b, d, oa, ob, od | .dec _ _, b, d, oa, ob, od
+  | .str _, b, d, oa, ob, od | .bin _ _, b, d, oa, ob, od | .oid _, b, d, oa, ob, od
+  | .bool _, b, d, oa, ob, od | .date _, b, d, oa, ob, od | .ts _ _, b, d, oa, ob, od
+  | .regex _ _, b, d, oa, ob, od => V.cmp_at_flat _ b d rfl rfl oa ob od
+theorem cmpFields_at : ∀ fs gs hs : List (String × V), i64OkFields fs = true →
+    i64OkFields gs = true → i64OkFields hs = true → LawsAt cmpFields fs gs hs
+  | (k, v) :: r, (k', v') :: r', (k'', v'') :: r'', o1, o2, o3 => by
+      rw [i64OkFields, Bool.and_eq_true] at o1 o2 o3
+      show Laws _ _ _ _ _
+      simp only [cmpFields_cons]
+      exact (cmpStr_lawful.at k k' k'').then
+        ((V.cmp_at v v' v'' o1.1 o2.1 o3.1).then (cmpFields_at r r' r'' o1.2 o2.2 o3.2))
+  | [], [], [], _, _, _ | [], [], _ :: _, _, _, _ | [], _ :: _, [], _, _, _
+  | [], _ :: _, _ :: _, _, _, _ | _ :: _, [], [], _, _, _ | _ :: _, [], _ :: _, _, _, _
+  | _ :: _, _ :: _, [], _, _, _ => by
+      refine ⟨cmpFields_refl _, cmpFields_swap _ _, ?_, ?_, ?_⟩ <;> simp [cmpFields]
+theorem cmpList_at : ∀ xs ys zs : List V, i64OkList xs = true →
+    i64OkList ys = true → i64OkList zs = true → LawsAt cmpList xs ys zs
+  | v :: r, v' :: r', v'' :: r'', o1, o2, o3 => by
+      rw [i64OkList, Bool.and_eq_true] at o1 o2 o3
+      show Laws _ _ _ _ _
+      simp only [cmpList_cons]
+      exact (V.cmp_at v v' v'' o1.1 o2.1 o3.1).then (cmpList_at r r' r'' o1.2 o2.2 o3.2)
+  | [], [], [], _, _, _ | [], [], _ :: _, _, _, _ | [], _ :: _, [], _, _, _
+  | [], _ :: _, _ :: _, _, _, _ | _ :: _, [], [], _, _, _ | _ :: _, [], _ :: _, _, _, _
+  | _ :: _, _ :: _, [], _, _, _ => by
+      refine ⟨cmpList_refl _, cmpList_swap _ _, ?_, ?_, ?_⟩ <;> simp [cmpList]
+end
+
+
 end Lungo
